@@ -259,9 +259,10 @@ PROPS["C04"] = {
                    "set only after begin() returned, processed + remaining quota = initial quota (at most k chunks), the wid is posted on the "
                    "replace queue exactly when the quota is exhausted, and exactly one result (i, [f(x) for x in c]) is put per work item "
                    "(i, c) on either branch of the queue.Full handling. Pool side: FunctorPool.__enter__ starts every worker exactly once, "
-                   "until_all_ready returns only after every worker's begin_finished is set, __exit__ puts exactly one stop token per worker "
-                   "and joins every worker that had not already exited (owed@join: a join is entered only on a worker that retired or after "
-                   "one stop token per worker was put), and the replace thread joins a retired worker BEFORE its slot is overwritten (no "
+                   "until_all_ready returns only after every worker's begin_finished is set, __exit__ sends one stop token per worker that is "
+                   "still running when the context is left (workers may end at any moment: environment step), retries a put on a full queue "
+                   "only while somebody is still running, and joins every worker that had not already exited (owed@join: a join is entered "
+                   "only on a worker that retired, has ended, or after one stop token per running worker was sent), and the replace thread joins a retired worker BEFORE its slot is overwritten (no "
                    "started and unjoined worker ever leaves procs): no worker is left running, replaced workers included. Bounded in "
                    "addition: real-process scenarios.",
     "level_text": "Proof of the worker's run() against its lifecycle / quota / result contract; bounded real-process scenarios for the pool side.",
@@ -308,7 +309,7 @@ PROPS["C03"] = {
                    "unjoined worker ever leaves procs), the successor gets a fresh unique wid, the pool's queues and the replace queue, and is "
                    "started in the same slot: the number of workers is constant and every slot always holds a started worker; the RuntimeError "
                    "branch is unreachable because wids stay unique. Bounded: histories of calls on real pools incl. retirement exactly at the "
-                   "end of a call (known finding F13 belongs to C02).",
+                   "end of a call.",
     "level_text": "Proof of the call-boundary contract and of the replace thread's loop; bounded call histories on real pools.",
     "level_note": "That a worker which retired after the stop token was consumed is replaced at the start of the NEXT call follows from the "
                   "run contract (notices are never dropped) but 'work pending while all workers retired' is only covered by the bounded layer.",
@@ -327,7 +328,7 @@ PROPS["C02"] = {
                    "retired). The bounded layer explores real schedules with a watchdog / deadlock detection.",
     "level_text": "Safety surrogates of termination proved by contract (owed@ obligations); liveness itself only by bounded exploration.",
     "level_note": "Honest limit of the technique: fairness / progress cannot be expressed as a pre/postcondition; flow control (run_event) "
-                  "waits are not covered deductively. Known finding F13 (retire-at-end-then-exit) is reported by the bounded layer.",
+                  "waits are not covered deductively. F13 (retire-at-end-then-exit: __exit__ blocked on a bounded work queue nobody read) was repaired by fix: ff9fe0c.",
 }
 
 PROPS["C13"] = {
